@@ -50,6 +50,8 @@ type probe struct {
 	bindsLocal  int
 	bindsRemote int
 	bindW, bindR int
+	owned     *interceptor.Chain // closed by this probe's Close, errors wrapped
+	ownedErrs []error            // the Close errors of the owned chain's members
 }
 
 func (p *probe) BindLocalStream(_ *interceptor.StreamInfo, w interceptor.RTPWriter) interceptor.RTPWriter {
@@ -66,7 +68,18 @@ func (p *probe) BindRTCPWriter(w interceptor.RTCPWriter) interceptor.RTCPWriter 
 func (p *probe) BindRTCPReader(r interceptor.RTCPReader) interceptor.RTCPReader { p.bindR++; return r }
 func (p *probe) UnbindLocalStream(i *interceptor.StreamInfo)                    { p.unbindLocal[i.SSRC]++ }
 func (p *probe) UnbindRemoteStream(i *interceptor.StreamInfo)                   { p.unbindRem[i.SSRC]++ }
-func (p *probe) Close() error                                                   { p.closes++; return p.closeErr }
+func (p *probe) Close() error {
+	p.closes++
+	if p.owned != nil {
+		// a member that owns a chain of its own and reports that chain's Close errors together with
+		// its own, wrapped the way errors.Join / fmt.Errorf("%w") do
+		if p.closeErr == nil {
+			return fmt.Errorf("probe%d: closing owned chain: %w", p.id, p.owned.Close())
+		}
+		return errors.Join(p.closeErr, p.owned.Close())
+	}
+	return p.closeErr
+}
 
 type probeFactory struct{ p *probe }
 
@@ -184,6 +197,16 @@ func scenario(c *vf.Case) {
 			p := &probe{id: len(s.probes), unbindLocal: map[uint32]int{}, unbindRem: map[uint32]int{}}
 			if r.Chance(0.6) {
 				p.closeErr = &obs.InjErr{ID: 9000 + p.id}
+			}
+			if r.Chance(0.15) {
+				var inner []interceptor.Interceptor
+				for k := r.Range(1, 2); k > 0; k-- {
+					e := &obs.InjErr{ID: 9500 + 10*p.id + k}
+					inner = append(inner, &probe{id: 100 + p.id, closeErr: e, unbindLocal: map[uint32]int{}, unbindRem: map[uint32]int{}})
+					p.ownedErrs = append(p.ownedErrs, e)
+				}
+				p.owned = interceptor.NewChain(inner)
+				c.Add("probes_owning_a_chain_whose_close_errors_they_wrap", 1)
 			}
 			s.probes = append(s.probes, p)
 			members = append(members, p)
@@ -912,6 +935,13 @@ func (s *sc) lifecycle() {
 			anyErr = true
 			if err == nil || !errors.Is(err, p.closeErr) {
 				s.viol("lifecycle/close-error-lost", "probe%d returned %v from Close; chain.Close() returned %v", p.id, p.closeErr, err)
+				return
+			}
+		}
+		for _, oe := range p.ownedErrs {
+			anyErr = true
+			if err == nil || !errors.Is(err, oe) {
+				s.viol("lifecycle/close-error-lost", "probe%d wrapped %v (from a chain it owns) into its Close error; chain.Close() returned %v", p.id, oe, err)
 				return
 			}
 		}
